@@ -25,6 +25,11 @@ OUTSIDE = ["non-monotonic target_data", "bypass_checks=True with decreasing data
 ASSUMPTIONS = ["target_data strictly monotonic and finite per column", "for method='log': target_data and levels positive; log is an uninterpreted strictly monotone function",
                "np.interp model: clamped piecewise-linear interpolation on increasing xp (validated against numpy per run)"]
 MAX_PATHS = 200000
+SWEEPS = {"int64": 1}
+
+
+def sweep_applies(cfg, flavor):
+    return cfg.get("method", "linear") == "linear" or cfg.get("kind") == "struct"
 
 
 def cases(tier):
@@ -71,6 +76,12 @@ def draw(W, n, m, direction, tag="", log=False, concrete_levels=False):
         W.assume(all((th[k] < th[k + 1]) if direction == "inc" else (th[k] > th[k + 1]) for k in range(n - 1)))
         if log:
             W.assume(all(t > 0 for t in th))
+    if not W.sym and W.flavor == "int64":
+        # integer-typed data and target_data, target levels that are not integers
+        th = np.asarray(th).astype(np.int64) * 3
+        W.assume(all((th[k] < th[k + 1]) if direction == "inc" else (th[k] > th[k + 1]) for k in range(n - 1)))
+        lev = np.array([float(th.min()) - 1.25 + (float(th.max() - th.min()) + 2.5) * (i + 0.37) / m for i in range(m)])[::-1].copy()
+        return phi, th, lev
     if concrete_levels:
         lev = np.array([0.5 + 2.25 * i for i in range(m)])[::-1].copy()
     else:
